@@ -165,6 +165,14 @@ fn main() {
             s.gen("path-map", s.n(2_000_000, 40_000_000), || map_case(4, false), check_map_case::<Level>);
             s.gen("path-map-u8", s.n(400_000, 8_000_000), || map_case(8, true), check_map_case::<u8>);
             s.gen("path-map-custom", s.n(400_000, 8_000_000), || map_case(8, true), check_map_case::<Sev>);
+            // artifacts of the libFuzzer target `level_path_map` (engine E6) are replayed through the same entry
+            s.manual("fuzz-artifact", Vec::<Vec<u8>>::new(), |bytes, cx| {
+                cx.nontrivial(true);
+                match fuzz_entry(bytes) {
+                    Ok(()) => Ok(()),
+                    Err(f) => cx.fail(f.sig, format!("{}; decoded case: {:?}", f.msg, c17::fuzz::decode(bytes))),
+                }
+            });
             s.enumerate(
                 "path-map-small-scope",
                 (0u16..729).flat_map(|config| {
